@@ -224,8 +224,8 @@ def _graph(rng, nmax=6):
 def cases(rng: random.Random, tier: str):
     out = load_corpus()
     quick = tier != "thorough"
-    n_set = 30000 if quick else 200000     # set-valued / structural streams
-    n_sem = 28000 if quick else 180000     # streams evaluated on functional SCMs
+    n_set = 30000 if quick else 120000     # set-valued / structural streams
+    n_sem = 28000 if quick else 100000     # streams evaluated on functional SCMs
     models = 3 if quick else 4
     weights = [("minimize", 3), ("minimize_event", 1), ("ancestors", 4), ("components_from_sets", 3),
                ("ancestral_components", 4), ("is_factor_form", 2), ("factors", 2), ("factors_values", 1), ("convert", 2)]
